@@ -692,3 +692,96 @@ package mcp
 //@   ghost sid := old(transport.SessionID)
 //@   ensures @closed-session-is-forgotten !at(unlocked, inDom(h.sessions, sid))
 //@   ensures @closed-session-timer-is-stopped at(locked, inDom(h.sessions, sid)) ==> calls(stop) == 1 && callArg(stop, 1, 0) == at(locked, h.sessions[sid])
+
+// ---------------------------------------------------------------------------------------------
+// C18: change notifications (debounce timers, subscriptions)
+// ---------------------------------------------------------------------------------------------
+
+// Server.mu guards the debounce timers and the subscription tables.
+//@ monitor smu lock Server.mu as s [C18]
+//@   protects fields(Server.pendingNotifications), maps("map[string]*time.Timer"), fields(Server.toolChangeSubscriptions), fields(Server.promptChangeSubscriptions), fields(Server.resourceChangeSubscriptions), fields(Server.resourceSubscriptions), maps("map[*ServerSession]jsonrpc.ID"), maps("map[string]map[*ServerSession]jsonrpc.ID"), fields(Server.sessions), ghosts("armed")
+//@   trust-section (*Server).subscriptionsListen
+//@   invariant @tables-exist s.pendingNotifications != nil && s.toolChangeSubscriptions != nil && s.promptChangeSubscriptions != nil && s.resourceChangeSubscriptions != nil && s.resourceSubscriptions != nil
+
+// The capability gate: a list-changed notification of a kind is sent iff the configured capabilities do not switch it
+// off (no capabilities configured means "on").
+//@ func (*Server).shouldSendListChangedNotification [C18]
+//@   requires s != nil
+//@   ensures @tools-gate notification == notificationToolListChanged ==> (result <==> (s.opts.Capabilities == nil || s.opts.Capabilities.Tools == nil || s.opts.Capabilities.Tools.ListChanged))
+//@   ensures @prompts-gate notification == notificationPromptListChanged ==> (result <==> (s.opts.Capabilities == nil || s.opts.Capabilities.Prompts == nil || s.opts.Capabilities.Prompts.ListChanged))
+//@   ensures @resources-gate notification == notificationResourceListChanged ==> (result <==> (s.opts.Capabilities == nil || s.opts.Capabilities.Resources == nil || s.opts.Capabilities.Resources.ListChanged))
+
+// changeAndNotify (one critical section): the change runs under the lock; if it changed something, the capability
+// is on and a session is connected, then when the lock is released a debounce timer for this kind exists and is
+// armed - it was created or re-armed after the change, so it fires after it: no change is ever left without a
+// notification scheduled after it. Nothing is scheduled when nothing changed or the capability is off.
+//@ func (*Server).changeAndNotify [C18]
+//@   track change as chg
+//@   track shouldSendListChangedNotification as gate
+//@   track time.AfterFunc as newTimer
+//@   track (*time.Timer).Reset as rearm
+//@   callee change: modifies *
+//@   requires s != nil
+//@   modifies *
+//@   ensures @change-runs-once-under-the-lock calls(chg) == 1
+//@   ensures @nothing-scheduled-without-a-change !callResult(chg, 1, 0) ==> calls(newTimer) == 0 && calls(rearm) == 0
+//@   ensures @nothing-scheduled-when-capability-off calls(gate) == 1 && !callResult(gate, 1, 0) ==> calls(newTimer) == 0 && calls(rearm) == 0
+//@   ensures @a-change-is-never-left-unscheduled callResult(chg, 1, 0) && calls(gate) == 1 && callResult(gate, 1, 0) && at(unlocked, len(s.sessions)) > 0 ==> at(unlocked, s.pendingNotifications[notification]) != nil && at(unlocked, ghostOf("armed", s.pendingNotifications[notification]))
+//@   assert at call time.AfterFunc: @scheduled-after-the-change calls(chg) == 1
+//@   assert at call (*time.Timer).Reset: @rescheduled-after-the-change calls(chg) == 1
+
+// notifySessions (the timer's function): the timer slot is cleared inside the critical section in which the
+// recipients are read, so a change that comes later finds no timer and schedules a new one; legacy sessions and the
+// subscribers of exactly this kind are notified, after the lock is released.
+//@ func (*Server).notifySessions [C18]
+//@   track maps.Clone as clone
+//@   track notifySessions as notifyLegacy
+//@   track notifySubscribedSessions as notifySubscribed
+//@   requires s != nil
+//@   modifies *
+//@   ensures @timer-slot-cleared-with-the-read at(unlocked, s.pendingNotifications[n]) == nil
+//@   ensures @both-groups-notified calls(notifyLegacy) == 1 && calls(notifySubscribed) == 1 && callArg(notifyLegacy, 1, 1) == n && callArg(notifySubscribed, 1, 2) == n
+//@   ensures @subscribers-of-this-kind-only calls(clone) <= 1 && (calls(clone) == 1 ==> callArg(notifySubscribed, 1, 1) == callResult(clone, 1, 0)) && (calls(clone) == 0 ==> callArg(notifySubscribed, 1, 1) == nil)
+//@   ensures @tools-kind n == notificationToolListChanged ==> calls(clone) == 1 && callArg(clone, 1, 0) == at(locked, s.toolChangeSubscriptions)
+//@   ensures @prompts-kind n == notificationPromptListChanged ==> calls(clone) == 1 && callArg(clone, 1, 0) == at(locked, s.promptChangeSubscriptions)
+//@   ensures @resources-kind n == notificationResourceListChanged ==> calls(clone) == 1 && callArg(clone, 1, 0) == at(locked, s.resourceChangeSubscriptions)
+//@   assert at call notifySessions: @lock-released-before-notifying !held(smu)
+
+// Resource subscriptions: subscribe records (uri, session) -> request id, unsubscribe removes exactly that pair,
+// a closing session is removed from every table.
+//@ func (*Server).subscribe [C18]
+//@   requires s != nil && req != nil && req.Params != nil
+//@   modifies *
+//@   ghost uri := at(locked, req.Params.URI)
+//@   ghost sess := at(locked, req.Session)
+//@   ensures @subscription-recorded result.1 == nil ==> at(unlocked, inDom(s.resourceSubscriptions, uri)) && at(unlocked, inDom(s.resourceSubscriptions[uri], sess))
+//@ func (*Server).unsubscribe [C18]
+//@   requires s != nil && req != nil && req.Params != nil
+//@   modifies *
+//@   ghost uri := at(locked, req.Params.URI)
+//@   ghost sess := at(locked, req.Session)
+//@   ensures @subscription-removed result.1 == nil ==> !at(unlocked, inDom(s.resourceSubscriptions, uri)) || !at(unlocked, inDom(s.resourceSubscriptions[uri], sess))
+//@ func (*Server).disconnect [C18]
+//@   requires s != nil
+//@   modifies *
+//@   ensures @closed-session-forgotten-by-list-subscriptions !at(unlocked, inDom(s.toolChangeSubscriptions, cc)) && !at(unlocked, inDom(s.promptChangeSubscriptions, cc)) && !at(unlocked, inDom(s.resourceChangeSubscriptions, cc))
+//@   ensures @closed-session-forgotten-by-resource-subscriptions forall u string :: {rawGet(at(unlocked, s.resourceSubscriptions), u)} at(unlocked, inDom(s.resourceSubscriptions, u)) ==> !at(unlocked, inDom(rawGet(s.resourceSubscriptions, u), cc))
+//@   loop 1: invariant @visited-tables-forgot-it forall u string :: {rawGet(s.resourceSubscriptions, u)} (u in $visited) ==> !inDom(rawGet(s.resourceSubscriptions, u), cc)
+
+// ResourceUpdated: only sessions subscribed to this URI when the table was read (under the lock) are notified - the
+// modern ones with the request id of their subscription - and the two recipient lists handed on are the ones built
+// under the lock.
+//@ func (*ServerSession).InitializeParams [C18]
+//@   pure
+//@ func (*Server).ResourceUpdated [C18]
+//@   track notifySessions as notifyLegacy
+//@   track notifySubscribedSessions as notifySubscribed
+//@   ghost subs := at(locked, s.resourceSubscriptions[params.URI])
+//@   requires s != nil && params != nil
+//@   modifies *
+//@   ensures @modern-recipients-are-subscribers forall k *ServerSession :: {inDom(at(unlocked, local(newSessions)), k)} at(unlocked, inDom(local(newSessions), k)) ==> at(unlocked, inDom(subs, k)) && at(unlocked, rawGet(local(newSessions), k)) == at(unlocked, rawGet(subs, k))
+//@   ensures @legacy-recipients-are-subscribers forall i int :: {absElem(at(unlocked, local(legacySessions)), off(at(unlocked, local(legacySessions))) + i)} 0 <= i && i < len(at(unlocked, local(legacySessions))) ==> at(unlocked, inDom(subs, local(legacySessions)[i]))
+//@   ensures @lists-built-under-the-lock-are-used calls(notifyLegacy) == 1 && calls(notifySubscribed) == 1 && callArg(notifySubscribed, 1, 1) == at(unlocked, local(newSessions)) && callArg(notifyLegacy, 1, 0) == at(unlocked, local(legacySessions))
+//@   loop 1: invariant @modern-recipients-are-subscribers local(newSessions) != nil && local(newSessions) != local(subscribedSessions) && (forall k *ServerSession :: {inDom(local(newSessions), k)} inDom(local(newSessions), k) ==> inDom(local(subscribedSessions), k) && rawGet(local(newSessions), k) == rawGet(local(subscribedSessions), k))
+//@   loop 1: invariant @legacy-recipients-are-subscribers forall i int :: {absElem(local(legacySessions), off(local(legacySessions)) + i)} 0 <= i && i < len(local(legacySessions)) ==> inDom(local(subscribedSessions), local(legacySessions)[i])
+//@   loop 1: invariant @table-entry-unchanged local(subscribedSessions) == at(locked, s.resourceSubscriptions[params.URI])
